@@ -23,6 +23,7 @@ import (
 	"io"
 	"io/ioutil"
 	"net/http"
+	"runtime"
 	"sort"
 	"strings"
 	"sync"
@@ -32,8 +33,17 @@ import (
 	"git.arvados.org/arvados.git/sdk/go/arvados"
 	"git.arvados.org/arvados.git/sdk/go/arvadosclient"
 	"git.arvados.org/arvados.git/sdk/go/keepclient"
+	"github.com/prometheus/client_golang/prometheus"
 	"github.com/sirupsen/logrus"
 )
+
+// Stream "concurrent": the same judgement on the REAL concurrent path. A
+// Balancer whose BlockStateMap holds thousands of blocks (filled through
+// AddReplicas / IncreaseDesired) is run through ComputeChangeSets with
+// GOMAXPROCS raised explicitly, so that many balanceBlock calls for blocks with
+// different rendezvous orders are in flight at once on shared *KeepService
+// objects; afterwards every service's ChangeSet is read back and the Pull /
+// Trash targets are judged per block.
 
 type c12bCase struct {
 	UUIDs     []string `json:"uuids"`
@@ -260,6 +270,99 @@ func c12bPrefixSet(order []string, k int, minus string) map[string]bool {
 		}
 	}
 	return s
+}
+
+
+// ---------------------------------------------------------------- concurrent path
+
+type c12bConcCase struct {
+	UUIDs     []string `json:"uuids"`
+	Devices   bool     `json:"device_ids"`
+	NBlocks   int      `json:"blocks"`
+	BlockSeed uint64   `json:"block_seed"`
+	Procs     int      `json:"gomaxprocs"`
+	Insert    []int    `json:"insertion_order"`
+}
+
+type c12bBlock struct {
+	hash   string
+	size   int
+	kind   string // pull (one replica on the last server) | trash (old replica everywhere)
+	k      int
+	holder string
+	order  []string // client's observed probe order, when taken
+}
+
+// c12bProber: one real KeepClient per case, asked for the probe order of many blocks.
+type c12bProber struct {
+	rec   *c12bRec
+	kc    *keepclient.KeepClient
+	byURL map[string]string
+	n     int
+}
+
+func c12bNewProber(uuids []string) *c12bProber {
+	p := &c12bProber{rec: &c12bRec{}, byURL: map[string]string{}, n: len(uuids)}
+	p.kc = &keepclient.KeepClient{
+		Arvados:       &arvadosclient.ArvadosClient{ApiToken: "veriftoken", Client: http.DefaultClient},
+		Want_replicas: 1,
+		HTTPClient:    p.rec,
+		RequestID:     "c12b",
+	}
+	locals := map[string]string{}
+	for i, u := range uuids {
+		url := fmt.Sprintf("http://c12b-s%d.invalid:25107", i)
+		locals[u] = url
+		p.byURL[url] = u
+	}
+	p.kc.SetServiceRoots(locals, locals, nil)
+	return p
+}
+
+func (p *c12bProber) order(hash string, size int) []string {
+	p.rec.mu.Lock()
+	p.rec.seq = p.rec.seq[:0]
+	p.rec.mu.Unlock()
+	r, _, _, _ := p.kc.Get(fmt.Sprintf("%s+%d", hash, size))
+	if r != nil {
+		r.Close()
+	}
+	var order []string
+	seen := map[string]bool{}
+	for _, url := range p.rec.seq {
+		u, ok := p.byURL[url]
+		if !ok || seen[u] {
+			return nil
+		}
+		seen[u] = true
+		order = append(order, u)
+	}
+	if len(order) != p.n {
+		return nil
+	}
+	return order
+}
+
+// c12bRefLast: the service with the smallest reference weight (27-character uuids).
+func c12bRefLast(hash string, uuids []string) string {
+	last, lw := "", ""
+	for _, u := range uuids {
+		w, _ := c12bWeight(hash, u)
+		if last == "" || w < lw {
+			last, lw = u, w
+		}
+	}
+	return last
+}
+
+func c12bRefOrder(hash string, uuids []string) []string {
+	ref := append([]string(nil), uuids...)
+	sort.SliceStable(ref, func(a, b int) bool {
+		wa, _ := c12bWeight(hash, ref[a])
+		wb, _ := c12bWeight(hash, ref[b])
+		return wa > wb
+	})
+	return ref
 }
 
 func TestVerifC12(t *testing.T) {
@@ -565,6 +668,217 @@ func TestVerifC12(t *testing.T) {
 		}
 		run.Feature(fmt.Sprintf("balancer,%s,%s,ties=%v,twomounts=%v,devids=%v,%s", nb, uuidClass, hasTies, tm, c.Devices, strings.SplitN(c.Change, ":", 2)[0]))
 		if i < 3 {
+			run.Sample(c)
+		}
+	})
+
+	// ================================================================ concurrent path
+	nconc := run.N(48, 960)
+	run.Cases("concurrent", nconc, func(i int, rng *verifkit.Rand) {
+		c := &c12bConcCase{Devices: rng.Bool(), BlockSeed: rng.Uint64(), Procs: rng.PickInt(4, 8, 8, 16)}
+		nsvc := rng.Range(6, 32)
+		if rng.Chance(1, 6) {
+			nsvc = rng.Range(3, 5)
+		}
+		class := rng.PickStr("all27", "all27", "all27", "mixed", "non27")
+		ties := class == "all27" && rng.Chance(1, 5)
+		used := map[string]bool{}
+		for s := 0; s < nsvc; s++ {
+			var u string
+			for {
+				if class == "all27" || (class == "mixed" && rng.Bool()) {
+					u = rng.String(5, alnum) + "-bi6l4-" + rng.String(15, alnum)
+				} else {
+					l := rng.PickInt(5, 15, 26, 28, 40, rng.Range(1, 45))
+					if l == 27 {
+						l = 28
+					}
+					u = rng.String(l, alnum+"-")
+				}
+				if ties && s > 0 && rng.Chance(1, 3) {
+					u = rng.String(5, alnum) + "-bi6l4-" + c.UUIDs[rng.Intn(s)][12:]
+				}
+				if !used[u] {
+					used[u] = true
+					break
+				}
+			}
+			c.UUIDs = append(c.UUIDs, u)
+		}
+		all27, hasTies := true, false
+		wseen := map[string]bool{}
+		for _, u := range c.UUIDs {
+			if len(u) != 27 {
+				all27 = false
+				continue
+			}
+			if wseen[u[12:]] {
+				hasTies = true
+			}
+			wseen[u[12:]] = true
+		}
+		uuidClass := "mixed"
+		if all27 {
+			uuidClass = "all27"
+		} else if len(wseen) == 0 {
+			uuidClass = "non27"
+		}
+		c.NBlocks = 3000
+		if !all27 {
+			c.NBlocks = 1200 // every block needs an observed client probe order
+		}
+		c.Insert = rng.Perm(nsvc)
+		run.Input(c, false)
+
+		// ---------------- blocks
+		prober := c12bNewProber(c.UUIDs)
+		brng := verifkit.NewRand(c.BlockSeed)
+		blocks := make([]*c12bBlock, 0, c.NBlocks)
+		bySD := map[arvados.SizedDigest]*c12bBlock{}
+		maxK := nsvc - 1
+		if maxK > 4 {
+			maxK = 4
+		}
+		for b := 0; b < c.NBlocks; b++ {
+			blk := &c12bBlock{hash: brng.Hex(32), size: brng.Range(1, 1<<26), kind: "pull", k: brng.Range(1, maxK)}
+			if brng.Chance(1, 3) {
+				blk.kind = "trash"
+			}
+			if !all27 || b%8 == 0 {
+				blk.order = prober.order(blk.hash, blk.size)
+			}
+			if all27 {
+				blk.holder = c12bRefLast(blk.hash, c.UUIDs)
+			} else if blk.order != nil {
+				blk.holder = blk.order[len(blk.order)-1]
+			} else {
+				run.Count("client_order_unusable", 1)
+				continue
+			}
+			sd := arvados.SizedDigest(fmt.Sprintf("%s+%d", blk.hash, blk.size))
+			if bySD[sd] != nil {
+				continue
+			}
+			bySD[sd] = blk
+			blocks = append(blocks, blk)
+		}
+
+		// ---------------- the balancer, filled the way GetCurrentState fills it
+		bc := &c12bCase{UUIDs: c.UUIDs, Devices: c.Devices}
+		b := c12bNewBalancer(bc, c.UUIDs, c.Insert, logger)
+		b.bal.Metrics = newMetrics(prometheus.NewRegistry())
+		b.bal.lostBlocks = ioutil.Discard
+		b.bal.BlockStateMap = NewBlockStateMap()
+		for si, u := range c.UUIDs {
+			var idx []arvados.KeepServiceIndexEntry
+			for _, blk := range blocks {
+				if blk.kind == "trash" || blk.holder == u {
+					idx = append(idx, arvados.KeepServiceIndexEntry{SizedDigest: arvados.SizedDigest(fmt.Sprintf("%s+%d", blk.hash, blk.size)), Mtime: int64(1000 + si)})
+				}
+			}
+			b.bal.AddReplicas(b.srvs[u].mounts[0], idx)
+		}
+		for k := 1; k <= maxK; k++ {
+			var ids []arvados.SizedDigest
+			for _, blk := range blocks {
+				if blk.k == k {
+					ids = append(ids, arvados.SizedDigest(fmt.Sprintf("%s+%d", blk.hash, blk.size)))
+				}
+			}
+			b.bal.IncreaseDesired("", nil, k, ids)
+		}
+
+		// ---------------- the real concurrent path
+		prev := runtime.GOMAXPROCS(c.Procs)
+		b.bal.ComputeChangeSets()
+		runtime.GOMAXPROCS(prev)
+		run.Count("concurrent_ComputeChangeSets_runs", 1)
+		run.CountMax("max_concurrent_balance_workers", c.Procs)
+		run.CountMax("max_cpus_available", runtime.NumCPU())
+
+		// ---------------- read every service's ChangeSet back
+		pulls := map[arvados.SizedDigest]map[string]int{}
+		trashes := map[arvados.SizedDigest]map[string]int{}
+		for u, srv := range b.srvs {
+			for _, p := range srv.ChangeSet.Pulls {
+				if pulls[p.SizedDigest] == nil {
+					pulls[p.SizedDigest] = map[string]int{}
+				}
+				pulls[p.SizedDigest][u]++
+				if p.To == nil || p.To.KeepService != srv {
+					run.Violation("C12:B:concurrent:pull-filed-under-other-server", fmt.Sprintf("pull of %s in the change set of %s targets a mount of another server", p.SizedDigest, u), c)
+				}
+			}
+			for _, t := range srv.ChangeSet.Trashes {
+				if trashes[t.SizedDigest] == nil {
+					trashes[t.SizedDigest] = map[string]int{}
+				}
+				trashes[t.SizedDigest][u]++
+			}
+		}
+		misranked := 0
+		bad := func(sig string, blk *c12bBlock, detail string) {
+			misranked++
+			if misranked <= 3 {
+				run.Violation(sig, fmt.Sprintf("%s\nblock %s+%d (%s-type, desired %d, replica holder %s), one of %d blocks balanced by ComputeChangeSets with GOMAXPROCS=%d; services %v", detail, blk.hash, blk.size, blk.kind, blk.k, blk.holder, len(blocks), c.Procs, c.UUIDs), c)
+			}
+		}
+		for _, blk := range blocks {
+			sd := arvados.SizedDigest(fmt.Sprintf("%s+%d", blk.hash, blk.size))
+			P, T := pulls[sd], trashes[sd]
+			want := map[string]bool{}
+			if blk.kind == "pull" {
+				if len(T) > 0 {
+					bad("C12:B:concurrent:pull-mode-trashes-the-only-replica", blk, fmt.Sprintf("trash requests %v", T))
+					continue
+				}
+				for u := range P {
+					want[u] = true
+				}
+				if len(P) == blk.k-1 && P[blk.holder] == 0 {
+					want[blk.holder] = true
+				}
+			} else {
+				if len(P) > 0 {
+					bad("C12:B:concurrent:trash-mode-pulls", blk, fmt.Sprintf("pull requests %v", P))
+					continue
+				}
+				for _, u := range c.UUIDs {
+					if T[u] == 0 {
+						want[u] = true
+					}
+				}
+			}
+			run.Count("concurrent_blocks_judged_"+blk.kind, 1)
+			if all27 {
+				run.Eval(1)
+				run.Count("concurrent_rankings_judged_against_reference", 1)
+				if !c12bValidTop(blk.hash, want, c.UUIDs, blk.k) {
+					bad("C12:B:concurrent:"+blk.kind+"-targets-differ-from-reference-top-k", blk, fmt.Sprintf("balancer wants replicas on %v; reference order %v", c12bKeys(want), c12bRefOrder(blk.hash, c.UUIDs)))
+					continue
+				}
+			}
+			if blk.order != nil && !hasTies {
+				run.Eval(1)
+				run.Count("concurrent_rankings_judged_against_client_probe_order", 1)
+				if !c12bEqualSets(want, c12bPrefixSet(blk.order, blk.k, "")) {
+					bad("C12:B:concurrent:"+blk.kind+"-targets-differ-from-client-probe-order:"+uuidClass, blk, fmt.Sprintf("balancer wants replicas on %v; a client probes %v first (full client order %v)", c12bKeys(want), blk.order[:blk.k], blk.order))
+					continue
+				}
+			}
+		}
+		if misranked > 0 {
+			run.Count("concurrent_blocks_misranked", misranked)
+		}
+		nb := "n3-5"
+		switch {
+		case nsvc >= 17:
+			nb = "n17-32"
+		case nsvc >= 6:
+			nb = "n6-16"
+		}
+		run.Feature(fmt.Sprintf("concurrent,%s,%s,ties=%v,devids=%v,procs=%d", nb, uuidClass, hasTies, c.Devices, c.Procs))
+		if i < 2 {
 			run.Sample(c)
 		}
 	})
